@@ -78,6 +78,9 @@ type Case struct {
 	AgeMs int `json:"age_ms,omitempty"`
 	// TimeoutMs: the proxy's SetTimeout value (0 = 60 s, longer than any case).
 	TimeoutMs int    `json:"timeout_ms,omitempty"`
+	// DownHead: framing header fields the downstream proxy puts on its 200 although it must not
+	// (RFC 7231 4.3.6: a client ignores them): "te-chunked" or "content-length".
+	DownHead string `json:"down_head,omitempty"`
 	TwinSize  int    `json:"twin_size,omitempty"`
 	TwinSeed  uint64 `json:"twin_seed,omitempty"`
 }
@@ -256,7 +259,7 @@ func halfClose(c net.Conn) {
 }
 
 // downstream is a minimal well-behaved CONNECT proxy.
-func downstream(l net.Listener, targetAddr string, coalesce int, routes ...func(host string) string) {
+func downstream(l net.Listener, targetAddr string, coalesce int, extraHead string, routes ...func(host string) string) {
 	for {
 		c, err := l.Accept()
 		if err != nil {
@@ -285,7 +288,7 @@ func downstream(l net.Listener, targetAddr string, coalesce int, routes ...func(
 				return
 			}
 			defer t.Close()
-			head := []byte("HTTP/1.1 200 Connection established\r\n\r\n")
+			head := []byte("HTTP/1.1 200 Connection established\r\n" + extraHead + "\r\n")
 			if co > 0 {
 				// wait for the first target bytes and send them with the 200
 				buf := make([]byte, co)
@@ -311,6 +314,9 @@ func shapeOf(c Case) string {
 	}
 	if c.DownCoalesce {
 		s += "-coalesced-200"
+	}
+	if c.DownHead != "" {
+		s += "-200-with-" + c.DownHead
 	}
 	return s
 }
@@ -375,7 +381,7 @@ func runOnce(c Case, T time.Duration) (v kit.Verdict) {
 		}
 		defer twinL.Close()
 	}
-	go downstream(dl, tl.Addr().String(), targetEarly, func(host string) string {
+	go downstream(dl, tl.Addr().String(), targetEarly, map[string]string{"te-chunked": "Transfer-Encoding: chunked\r\n", "content-length": "Content-Length: 7\r\n"}[c.DownHead], func(host string) string {
 		if twinL != nil && strings.HasPrefix(host, "twin.test") {
 			return twinL.Addr().String()
 		}
@@ -786,6 +792,7 @@ func genCase(t *rapid.T) Case {
 	}
 	if c.Route == "downstream" {
 		c.DownCoalesce = rapid.IntRange(0, 2).Draw(t, "down_coalesce") == 0
+		c.DownHead = rapid.SampledFrom([]string{"", "", "", "te-chunked", "content-length"}).Draw(t, "down_head")
 	}
 	c.Shaped = rapid.IntRange(0, 3).Draw(t, "shaped") == 0
 	if c.Route == "direct" && rapid.IntRange(0, 9).Draw(t, "unreachable") == 0 {
@@ -830,6 +837,9 @@ func classes(c Case) []string {
 	}
 	if c.DownCoalesce {
 		out = append(out, "downstream-coalesced-200")
+	}
+	if c.DownHead != "" {
+		out = append(out, "downstream-200-with-"+c.DownHead)
 	}
 	if c.Unreachable {
 		out = append(out, "unreachable")
